@@ -188,7 +188,8 @@ def unsplit_netloc(username, password, hostname, port):
 
     if auth:
         hostname = auth + "@" + hostname
-    if port:
+    # NOTE: port 0 is a port too
+    if port is not None:
         hostname += ":" + str(port)
 
     return hostname
